@@ -14,11 +14,14 @@ from . import core
 from .eems import _tla_to_json, _STATE_RE
 
 MISSING = -9999.0
+# the declared missing value varies from case to case: the classic sentinel, zero (a falsy number), a huge and a small one
+MISSING_CHOICES = [-9999.0, 0.0, -9999.0, 1e30, -1.0, 0.0]
+MISSING_TEXT = {-9999.0: ["-9999", "-9999.0", "-9.999e3"], 0.0: ["0", "0.0", "-0.0", "0e0"], 1e30: ["1e30", "1E+30", "1000000000000000019884624838656"], -1.0: ["-1", "-1.0", "-10e-1"]}
 BAD = ["abc", "", "NULL", "1.2.3", "1e", "--"]
 
 
-def pick_values(rng, integral):
-    """concrete doubles for the ids v1..v4 (distinct, never the missing value)"""
+def pick_values(rng, integral, missing=MISSING):
+    """concrete doubles for the ids v1..v4 (distinct, never equal to the missing value)"""
     if integral:
         pool = [3.0, -7.0, 0.0, 123456789.0, 1.0, -1.0, 2.0 ** 52, 42.0]
     else:
@@ -26,8 +29,9 @@ def pick_values(rng, integral):
                 0.30000000000000004, 123456.789, 2.0 ** 53 + 2, 1.0000000000000002]
         for _ in range(6):
             x = struct.unpack("<d", struct.pack("<Q", rng.getrandbits(64)))[0]
-            if x == x and abs(x) != float("inf") and x != MISSING:
+            if x == x and abs(x) != float("inf"):
                 pool.append(x)
+    pool = [x for x in pool if x != missing]
     vals = []
     seen = set()
     while len(vals) < 4:
@@ -37,7 +41,12 @@ def pick_values(rng, integral):
             vals.append(x)
     # one value is always a close neighbour of the missing value: only cells EQUAL to it may be masked
     import math
-    vals[3] = rng.choice([-9998.0, -10000.0]) if integral else rng.choice([math.nextafter(MISSING, 0), math.nextafter(MISSING, -1e9), -9999.000001, -9998.9999])
+    if integral:
+        near = [missing + 1, missing - 1, missing + 2, missing - 2, missing + 5] if abs(missing) < 1e15 else [1e30 - 2.0 ** 60, 2.0 ** 62]
+    else:
+        near = [math.nextafter(missing, math.inf), math.nextafter(missing, -math.inf), missing * (1 + 1e-9) if missing else 1e-9, missing - 1e-4]
+    near = [x for x in near if x != missing and x.hex() not in {v.hex() for v in vals[:3]}]
+    vals[3] = rng.choice(near)
     return dict(zip(["v1", "v2", "v3", "v4"], vals))
 
 
@@ -45,7 +54,7 @@ def csv_field(s):
     return '"%s"' % s.replace('"', '""') if any(c in s for c in ',"\n') else s
 
 
-def file_text(f, vals, rng):
+def file_text(f, vals, rng, missing=MISSING):
     header, lines = f
     eol = rng.choice(["\n", "\r\n"])
     out = [",".join(csv_field(h) for h in header)]
@@ -59,7 +68,7 @@ def file_text(f, vals, rng):
                     x = vals[c[1]]
                     cells.append(repr(x) if not float(x).is_integer() or rng.random() < 0.5 or abs(x) > 1e15 or x == 0 else str(int(x)))
                 elif c[0] == "miss":
-                    cells.append(rng.choice(["-9999", "-9999.0", "-9.999e3"]))
+                    cells.append(rng.choice(MISSING_TEXT[missing]))
                 else:
                     cells.append(rng.choice([b for b in BAD if b or len(ln[1]) > 1]))   # an empty single cell would be a blank line
             out.append(",".join(cells))
@@ -96,14 +105,14 @@ def gen_cases(rows, cols, dump=True, workers=8):
     return r, cases
 
 
-def abstract_cells(arr, vals, np):
+def abstract_cells(arr, vals, np, missing=MISSING):
     inv = {float(v).hex(): k for k, v in vals.items()}
     mask = np.ma.getmaskarray(arr)
     data = np.ma.getdata(arr)
     out = []
     for i in range(len(data)):
         x = float(data[i])
-        if x == MISSING:
+        if x == missing:
             out.append(["miss", bool(mask[i])])
         else:
             out.append([inv.get(x.hex(), "?%r" % x), bool(mask[i])])
@@ -183,15 +192,18 @@ def check_C17(tier):
     info = {}
     for ci, case in enumerate(cases):
         integral = case["dtype"] == "Integer"
-        vals = pick_values(rng, integral)
-        text = file_text(case["file"], vals, rng)
+        mval = MISSING_CHOICES[(ci + core.SEED) % len(MISSING_CHOICES)]
+        if integral and abs(mval) >= 1e15:
+            mval = MISSING
+        vals = pick_values(rng, integral, mval)
+        text = file_text(case["file"], vals, rng, mval)
         path = os.path.join(wd, "in.csv")
         with open(path, "w", newline="") as f:
             f.write(text)
         p = Program(libraries=libs, working_dir=wd)
         args = OrderedDict([("InFileName", "in.csv"), ("InFieldName", case["field"])])
         if case["missing"]:
-            args["MissingVal"] = rng.choice([-9999, -9999.0, "-9999"])
+            args["MissingVal"] = rng.choice([int(mval), mval, MISSING_TEXT[mval][0]] if abs(mval) < 1e15 else [mval, MISSING_TEXT[mval][0]])
         if case["dtype"] == "Integer" or rng.random() < 0.5:
             args["DataType"] = case["dtype"]
         p.add_command(p.find_command_class("EEMSRead"), "R", args)
@@ -199,7 +211,7 @@ def check_C17(tier):
         try:
             arr = p.commands["R"].result
             want = np.integer if case["dtype"] == "Integer" else np.floating
-            obs = ["ok", abstract_cells(arr, vals, np), bool(isinstance(arr, np.ndarray) and np.issubdtype(arr.dtype, want) and arr.ndim == 1)]
+            obs = ["ok", abstract_cells(arr, vals, np, mval), bool(isinstance(arr, np.ndarray) and np.issubdtype(arr.dtype, want) and arr.ndim == 1)]
         except BaseException as e:
             m = re.search(r"on line (\d+)", str(getattr(e, "problem", "")) + str(e))
             cls = type(e).__name__
@@ -212,17 +224,22 @@ def check_C17(tier):
             vp.ARRAYS["r"] = arr[::-1].copy()
             q.add_command(q.find_command_class("ArrayConst"), "x,y", {"Key": "k"})
             q.add_command(q.find_command_class("ArrayConst"), "out 1", {"Key": "r"})
-            q.add_command(q.find_command_class("EEMSWrite"), "W", OrderedDict([("OutFileName", "out.csv"), ("OutFieldNames", ["x,y", "out 1"])]))
+            # (every third case lists the first result twice: the listed order is what is written, one column per listed name)
+            wnames = ["x,y", "out 1"] + (["x,y"] if ci % 3 == 0 else [])
+            q.add_command(q.find_command_class("EEMSWrite"), "W", OrderedDict([("OutFileName", "out.csv"), ("OutFieldNames", wnames)]))
             q.add_command(q.find_command_class("EEMSRead"), "B", OrderedDict([("InFileName", "out.csv"), ("InFieldName", "x,y")] + ([("DataType", "Integer")] if integral else [])))
             try:
                 q.commands["W"].result
                 import csv as _csv
                 with open(os.path.join(wd, "out.csv")) as f:
-                    hdr = next(_csv.reader(f))
+                    rows = list(_csv.reader(f))
+                hdr = rows[0]
                 back = q.commands["B"].result
-                wobs = ["ok", abstract_cells(back, vals, np), hdr]
+                rowsok = all(len(r) == len(wnames) for r in rows[1:]) and len(rows) - 1 == len(arr) and \
+                    all(r[0] == r[-1] for r in rows[1:] if len(wnames) == 3)
+                wobs = ["ok", abstract_cells(back, vals, np, mval), hdr, wnames, bool(rowsok)]
             except BaseException as e:
-                wobs = ["err:" + type(e).__name__, [], []]
+                wobs = ["err:" + type(e).__name__, [], [], [], False]
         rid = len(records)
         records.append({"id": rid, "file": case["file"], "field": case["field"], "missing": case["missing"], "dtype": case["dtype"], "obs": obs, "wobs": wobs})
         info[rid] = (text, vals, args)
